@@ -7,6 +7,7 @@ NAMES = ['', 'a', 'A', 'b', 'B', 'ab', 'Ab', 'aB', 'a[0]', 'a_0_', '&x', '&X', '
          'inst', 'INST', 'n1', 'N1']
 IDENTS = ['a', 'A', 'b', 'ab', 'AB', 'Ab', '&x', '&X', 'x_1', 'X_1', '1a', 'a-b', '&', 'a b', 'c', 'C', 'a\n', 'B_2\n',
           'a\u00ba1', 'a\u0663', '&\u0663']   # word characters outside ASCII (no case mapping): never legal in an identifier
+LONG_IDENTS = ['b' * 255, 'b' * 256, '&' + 'b' * 255, '&' + 'b' * 256, 'B' * 255]
 USER_KEYS = ['k', 'K', 'prop', 'EDIF.rename']
 RELS = ['libs', 'defs', 'ports', 'cables', 'children', 'pins', 'wires']
 
@@ -71,6 +72,9 @@ class Gen:
 
     def key_val(self):
         x = self.r.random()
+        if x < 0.02:
+            # the length limits of an identifier: 255 characters, 256 with the & prefix; one more is refused
+            return 'EDIF.identifier', 's:' + tok_of_s(self.r.choice(LONG_IDENTS))
         if x < 0.5:
             return 'EDIF.identifier', 's:' + tok_of_s(self.r.choice(IDENTS))
         if x < 0.6:
@@ -171,6 +175,16 @@ class Gen:
                 self.pending = ch[1:]
                 self._touch(ch[0])
                 return ch[0]
+        if self.weights.get('dset', 0) and self.weights.get('policy', 0) and self.r.random() < (0.04 if self.naming else 0.006):
+            ch = self.chain_ident_twins()
+            self.pending = ch[1:]
+            self._touch(ch[0])
+            return ch[0]
+        if self.weights.get('dset', 0) and self.weights.get('ddel', 0) and self.r.random() < (0.03 if self.naming else 0.004):
+            ch = self.chain_dup_names_no_policy()
+            self.pending = ch[1:]
+            self._touch(ch[0])
+            return ch[0]
         kinds = list(self.weights)
         for _ in range(30):
             k = self.r.choices(kinds, [self.weights[x] for x in kinds])[0]
@@ -248,6 +262,53 @@ class Gen:
             ops.append(['create', 'defs', str(self.w.index[id(lib)]), tok_of_s(n1), '0', '0', '~'])
         ops.append(mk(d, self.r.choice([n2, n2.swapcase(), n1])))
         return ops
+
+    def chain_ident_twins(self):
+        """a fresh scope under the EDIF policy; one child carries an identifier, a sibling of the same kind asks for
+        the same identifier in another letter case - by assignment and at creation (both refused) - and gets it once
+        the first one has moved to another identifier. (Measured: random histories hardly ever bring two legal
+        identifiers that differ in case only together in one EDIF scope.)"""
+        T = tok_of_s
+        rel, pk = self.r.choice([('ports', 'definition'), ('cables', 'definition'), ('children', 'definition'),
+                                 ('defs', 'library'), ('libs', 'netlist')])
+        a, b = self.r.choice([('Ab', 'aB'), ('sig_A', 'SIG_a'), ('x1', 'X1'), ('&x', '&X'), ('q', 'Q')])
+        d = len(self.w.objs)
+        ident = T('EDIF.identifier')
+        ops = [['policy', '1'],
+               ['new', pk, T('scope'), '0'],
+               ['create', rel, str(d), T('n1'), '1', ident, 's:' + T(a), '0', '~'],
+               ['create', rel, str(d), T('n2'), '0', '0', '~'],
+               ['dset', str(d + 2), ident, 's:' + T(b)],
+               ['create', rel, str(d), T('n3'), '1', ident, 's:' + T(self.r.choice([b, a, a.upper()])), '0', '~'],
+               ['dset', str(d + 1), ident, 's:' + T('other')],
+               ['dset', str(d + 2), ident, 's:' + T(b)]]
+        if self.r.random() < 0.6:
+            ops.append(['policy', '0'])
+        return ops
+
+    def chain_dup_names_no_policy(self):
+        """a root scope whose naming policy was assigned and then deleted keeps no name bookkeeping at all: two children
+        with the same name (or, for EDIF, identifiers differing in case only) are accepted; assigning a policy to that
+        scope must then be refused (no_name_conflicts) until one of them is renamed"""
+        T = tok_of_s
+        rel, pk = self.r.choice([('ports', 'definition'), ('cables', 'definition'), ('children', 'definition'),
+                                 ('defs', 'library'), ('libs', 'netlist')])
+        d = len(self.w.objs)
+        ns = T('.NS')
+        pol = lambda: 's:' + T(self.r.choice(['DEFAULT', 'EDIF']))  # noqa
+        by_ident = self.r.random() < 0.4
+        if by_ident:
+            ident = T('EDIF.identifier')
+            a, b = self.r.choice([('Ab', 'aB'), ('x1', 'X1'), ('q', 'q')])
+            mk = [['create', rel, str(d), T('n1'), '1', ident, 's:' + T(a), '0', '~'],
+                  ['create', rel, str(d), T('n2'), '1', ident, 's:' + T(b), '0', '~']]
+            target, fix = 's:' + T('EDIF'), ['dset', str(d + 2), ident, 's:' + T('other')]
+        else:
+            nm = self.r.choice(NAMES)
+            mk = [['create', rel, str(d), T(nm), '0', '0', '~'], ['create', rel, str(d), T(nm), '0', '0', '~']]
+            target, fix = pol(), ['setname', str(d + 2), T('other')]
+        return [['new', pk, T('scope'), '0'], ['dset', str(d), ns, pol()], [self.r.choice(['ddel', 'dpop']), str(d), ns]] + mk + \
+               [['dset', str(d), ns, target], fix, ['dset', str(d), ns, target]]
 
     def chain_stale_proxy(self):
         """several steps on one outer pin through a proxy object the caller keeps: connect it to a wire through
@@ -350,7 +411,10 @@ class Gen:
         elif x < 0.45 and cs:
             cs.append(cs[0])
         self.r.shuffle(cs)
-        return ['removefrom', rel, str(p), str(len(cs))] + [str(c) for c in cs]
+        op = ['removefrom', rel, str(p), str(len(cs))] + [str(c) for c in cs]
+        if self.r.random() < 0.25:
+            op.append('set')   # the caller's argument is a set (ir_world: handed over as it is)
+        return op
 
     def g_reorder(self):
         rel = self.r.choice(RELS)
@@ -444,7 +508,7 @@ class Gen:
         inst = self.w.objs[x]
         r = self.r.random()
         if r < 0.2:
-            return ['setref', str(x), '~']
+            return ['setref', str(x), '~'] + (['del'] if self.r.random() < 0.3 else [])
         if inst.reference is not None and r < 0.35:
             # same number of ports, same first port, a later port of another width: refused half-way?
             cur = inst.reference
@@ -534,13 +598,16 @@ class Gen:
         if x < 0.25:
             return ['downto', str(b), self.r.choice('01')]
         if x < 0.6:
-            return ['scalar', str(b), self.r.choice('01')]
+            return ['scalar', str(b), self.r.choice('01')] + (['array'] if self.r.random() < 0.3 else [])
         if x < 0.8:
             return ['lower', str(b), str(self.r.randint(-2, 9))]
         p = self.pick('port')
         if p is None:
             return None
-        return ['direction', str(p), str(self.r.randint(0, 3))]
+        op = ['direction', str(p), str(self.r.randint(0, 3))]
+        if self.r.random() < 0.5:
+            op.append(self.r.choice(['int', 'strl', 'stru', 'strc']))   # the documented int / string spellings of the value
+        return op
 
     def g_policy(self):
         return ['policy', self.r.choice('01')]
